@@ -133,7 +133,7 @@ def w_seq(n: int, k0: int, k1: int, k2: int, k3: int, pre: int, many: bool) -> s
     pre: 1 <= n <= 4 and 0 <= k0 < 4 and 0 <= k1 < 4 and 0 <= k2 < 4 and 0 <= k3 < 4 and 0 <= pre < 9
     post: _ == ''
     """
-    return _seq(rt.sel(n, 5), rt.sel(k0, 4), rt.sel(k1, 4), rt.sel(k2, 4), rt.sel(k3, 4), rt.sel(pre, 9), [False, True][many])
+    return _seq(rt.sel(n, 5), rt.sel(k0, 4), rt.sel(k1, 4), rt.sel(k2, 4), rt.sel(k3, 4), rt.sel(pre, 9), rt.selb(many))
 
 
 # ---------------------------------------------------------------- W: concurrency
